@@ -21,7 +21,7 @@ Print Assumptions C05_check_dataframe_spec.
 
 (* a copy of a frame always passes *)
 Theorem C05_copy_passes : forall isd o df,
-  flag_in (d_types o) df -> flag_in (d_data o) df -> flag_in (d_extra o) df ->
+  flag_in (d_types o) df -> flag_in (d_data o) df ->
   exists v, check_dataframe isd o df df = Done v /\ v_same v = true.
 Proof. exact copy_passes_proof. Qed.
 Print Assumptions C05_copy_passes.
@@ -33,7 +33,7 @@ Theorem C05_difference_fails : forall isd o df ref,
   ( (exists c, In c (resolve (d_types o) ref) /\ has df c = false) \/
     (exists c a r, In c (resolve (d_types o) ref) /\ lookup df c = Some a /\ lookup ref c = Some r /\
                    types_match isd (d_level o) (eff_dtype a) (eff_dtype r) = false) \/
-    (exists c, In c (resolve (d_extra o) df) /\ has ref c = false) \/
+    (exists c, In c (resolve (d_extra o) df) /\ has df c = true /\ has ref c = false) \/
     (d_order o <> FNone /\
      filter (fun c => mem_str c (resolve (d_order o) ref) && has ref c) (names df) <>
      filter (fun c => mem_str c (resolve (d_order o) ref) && has df c) (names ref)) \/
